@@ -9,6 +9,10 @@
 #           as job JSON, compared at the configuration the front ends build (QPDFJob::Members dump) and, where that differs,
 #           end to end: the non-commuting pairs (DESIGN §6 D12) are found mechanically; pairs not in known_findings.json are reported.
 #   model   (part 'front') the extracted front-end model against the configuration dump of the real front ends.
+#   cwd-*   the hand-written positional / nested handlers in working directories that contain entries named like every kind of word a
+#           handler may expect next (page ranges, '--', option words, passwords, key lengths), inputs named like page ranges:
+#           cwd-cfg (argv vs job JSON at the configuration dump), cwd-front (model given the directory's names vs implementation),
+#           cwd-e2e (five renderings end to end). Theorems: pages_* in Sys/C19ProofsD.v over the specification Sys/JobPagesSpec.v.
 import hashlib, itertools, json, os, re, shutil, subprocess
 import common, pdfgen
 import translate_job_tables as TJ
@@ -21,7 +25,12 @@ ASSUMPTIONS = [
     "renderings and between the two JSON renderings, because the parser-level wording legitimately differs between argv and JSON)",
     "the configuration dump reads QPDFJob::Members through the private header compiled with private spelled public (read only)",
     "help-table options (--version, --help, --copyright, --show-crypto, --job-json-help, --json-help, --zopfli, completion) have no job-JSON form by "
-    "design and are outside the equivalence; @argfile expansion and reading passwords/arguments from standard input are not exercised",
+    "design and are outside the equivalence; @argfile expansion and reading passwords/arguments from standard input are not exercised "
+    "(words @name are used only where no file of that name exists: then they are ordinary words)",
+    "cwd parts: the positional --pages grammar cannot say 'range omitted, next file named like a page range' (theorem "
+    "pages_positional_rangelike_file_refuted); the renderer gives such a file as --file=, which the manual allows to be mixed in; a page range "
+    "that is not one syntactically is given positionally only when no entry of that name exists in the working directory (otherwise the "
+    "grammar reads it as a file name)",
 ]
 
 POOL = ["A.pdf", "B.pdf", "C.pdf", "E.pdf", "E256.pdf", "F.pdf", "att.txt", "att2.txt", "pwfile.txt", "AJ.json", "O.pdf", "W.pdf"]
@@ -136,9 +145,77 @@ def flag_arg(e, v):
     return f + "=" + v
 
 
-def render_argv(T, job, order=None, style=0):
+GROUP_RE = re.compile(r"(x)?(z|r?[0-9]+)(?:-(z|r?[0-9]+))?$")
+
+
+def range_syntax_ok(s):
+    """the word is a page range as far as the command line can tell (QUtil::parse_numrange(word, 0) accepts it: the page count is
+    not known while the command line is parsed). Written from the manual's page-range grammar (cli.rst, 'Page Ranges'): comma-separated
+    groups n | n-m with n = number | rnumber | z, groups after the first may be exclusions (x...), an optional :odd / :even at the end;
+    the empty range selects nothing and is accepted."""
+    i = s.find(":")
+    body = s
+    if i >= 0:
+        if s[i:] not in (":odd", ":even"):
+            return False
+        body = s[:i]
+    if body == "":
+        return True
+    first = True
+    for g in body.split(","):
+        m = GROUP_RE.match(g)
+        if not m or (first and m.group(1)):
+            return False
+        first = False
+        for n in (m.group(2), m.group(3)):
+            if n and n != "z" and int(n.lstrip("r")) > 2 ** 31 - 1:
+                return False
+    return True
+
+
+def posword(w):
+    """the word can be given as a positional argument: option words start with '-' (the single word "-" is positional), and a word
+    @name is replaced by the lines of the file name when that file exists (QPDFArgParser::handleArgFileArguments)"""
+    return not (len(w) >= 2 and w[0] in "-@")
+
+
+def render_pages(specs, style, files=frozenset()):
+    """--pages ... -- for the page specifications of a job. style even: the manual's positional grammar
+           filename [--password=password] [page-range]      repeated
+    in which a word after a file name is that file's page range when it is a page range, and otherwise the next file name (which must
+    then be '.' or an existing file); style odd: --file= / --password= / --range=. The positional form is used for a word only where
+    the grammar reads it back as what the job says (files: the names that exist in the working directory); otherwise that word is
+    given in the named form, which the manual allows to be mixed in."""
+    out = ["--pages"]
+    seen_file = False      # a positional file name has been given
+    after_range = False    # the last positional word was a page range
+    for it in specs:
+        named = True
+        if "file" in it:
+            f = it["file"]
+            if style % 2 == 0 and posword(f) and (not seen_file or after_range or not range_syntax_ok(f)):
+                out.append(f)
+                seen_file, after_range, named = True, False, False
+            else:
+                out.append("--file=" + f)
+        for sk in sorted(it):
+            if sk == "password":
+                out.append("--password=" + it[sk])
+            elif sk == "range":
+                r = it[sk]
+                if not named and r != "" and posword(r) and (range_syntax_ok(r) or (r != "." and r not in files)):
+                    out.append(r)
+                    after_range = True
+                else:
+                    out.append("--range=" + r)
+    out.append("--")
+    return out
+
+
+def render_argv(T, job, order=None, style=0, files=frozenset()):
     """the job (JSON-shaped dict) as argv words, options in the given key order (default: byte order of the JSON keys, which is the
-    order in which the JSON front end visits them)"""
+    order in which the JSON front end visits them). files: names that exist in the working directory (the positional --pages grammar
+    depends on them)"""
     keys = order if order is not None else sorted(job)
     out = []
     for k in keys:
@@ -148,20 +225,11 @@ def render_argv(T, job, order=None, style=0):
         elif k == "outputFile":
             out.append(v)
         elif k == "pages":
-            out.append("--pages")
-            for it in v:
-                if "file" in it:
-                    out.append(it["file"] if style % 2 == 0 else "--file=" + it["file"])
-                for sk in sorted(it):
-                    if sk == "password":
-                        out.append("--password=" + it[sk])
-                    elif sk == "range":
-                        out.append(it[sk] if style % 2 == 0 and it[sk] != "" and "file" in it else "--range=" + it[sk])
-            out.append("--")
+            out += render_pages(v, style, files)
         elif k == "encrypt":
             bits = [b for b in ("40bit", "128bit", "256bit") if b in v]
             b = bits[0] if bits else None
-            if style % 2 == 0:
+            if style % 2 == 0 and posword(v.get("userPassword", "")) and posword(v.get("ownerPassword", "")):
                 out += ["--encrypt", v.get("userPassword", ""), v.get("ownerPassword", ""), b[:-3] if b else "0"]
             else:
                 out += ["--encrypt", "--user-password=" + v.get("userPassword", ""), "--owner-password=" + v.get("ownerPassword", ""),
@@ -175,7 +243,7 @@ def render_argv(T, job, order=None, style=0):
             for it in v:
                 out.append("--" + k)
                 if "file" in it:
-                    out.append(it["file"] if style % 2 == 0 else "--file=" + it["file"])
+                    out.append(it["file"] if style % 2 == 0 and posword(it["file"]) else "--file=" + it["file"])
                 for sk in sorted(it):
                     if sk != "file":
                         out.append(flag_arg(T.sub["uo"][sk], it[sk]))
@@ -246,11 +314,58 @@ def make_pool(wd):
     return pool
 
 
-def new_rundir(wd, pool, name):
+# ---- what else lies in the working directory. The command line is the only front end whose reading of a word may depend on the
+# directory (ArgParser::argPagesPositional asks whether the word names a file; QPDFArgParser expands @file), so every job of the 'cwd'
+# parts is run in directories that contain entries named like each kind of word a hand-written handler may expect next: page ranges,
+# the table terminator, option words of the nested tables, passwords, key lengths, rotations.
+RANGE_NAMES = {"1": "B.pdf", "2": "B.pdf", "1-3": "A.pdf", "z": "F.pdf", "r1": "E.pdf", "1-z": "B.pdf", "z-1": "B.pdf", "2,1": "B.pdf",
+               "3,1": "A.pdf", "1-2:even": "B.pdf", "1-z:odd": "B.pdf", "9": "B.pdf", ":odd": "B.pdf", "1,x1": "B.pdf", "r2-r1": "A.pdf"}
+TOKEN_NAMES = {"--": "O.pdf", "--password=pw": "O.pdf", "--range=1": "O.pdf", "--file=B.pdf": "O.pdf", "--to=1": "O.pdf", "--from=1": "O.pdf",
+               "--repeat=1": "O.pdf", "--key=k1": "att.txt", "--prefix=p-": "F.pdf", "--replace": "att.txt", "--bits=256": "O.pdf",
+               "--user-password=u": "O.pdf", "--owner-password=o": "O.pdf", "pw": "O.pdf", "u": "O.pdf", "o": "O.pdf", "opw": "O.pdf",
+               "256": "O.pdf", "128": "O.pdf", "40": "O.pdf", "+90": "O.pdf", "+90:1": "O.pdf", "90": "O.pdf", "k1": "att.txt", "p-": "F.pdf",
+               "x": "O.pdf", "-x": "O.pdf", "y": "O.pdf", "n": "O.pdf", "--collate": "O.pdf", "--split-pages": "O.pdf"}
+FLAVOURS = {
+    "plain": {},
+    "ranges-pdf": dict(RANGE_NAMES),                               # PDF files named like page ranges
+    "ranges-dir": {k: None for k in RANGE_NAMES},                  # directories named like page ranges (fopen succeeds on a directory)
+    "tokens": dict(TOKEN_NAMES),                                   # files named like the other words of the nested tables
+    "all": dict(list(RANGE_NAMES.items()) + list(TOKEN_NAMES.items())),
+}
+FLAVOUR_ORDER = ["all", "ranges-dir", "ranges-pdf", "tokens", "plain"]
+
+
+def flavour_files(flavour):
+    """the names QUtil::file_can_be_opened accepts in a run directory of that flavour"""
+    return frozenset(POOL) | frozenset(FLAVOURS[flavour])
+
+
+def job_words(v):
+    """every string in a JSON-shaped job"""
+    if isinstance(v, str):
+        return {v}
+    if isinstance(v, dict):
+        return set().union(*[job_words(x) for x in v.values()]) if v else set()
+    if isinstance(v, list):
+        return set().union(*[job_words(x) for x in v]) if v else set()
+    return set()
+
+
+def new_rundir(wd, pool, name, flavour="plain", only=None):
+    """only: create just those entries of the flavour (the end-to-end runs need five directories per job and create the look-alike
+    entries whose name is a word of the job - a front end can only ask about names it is given; the configuration-level and model
+    runs use the whole flavour)"""
     d = os.path.join(wd, "r", name)
     os.makedirs(d)
     for f in POOL:
         os.symlink(os.path.join(pool, f), os.path.join(d, f))
+    for f, target in FLAVOURS[flavour].items():
+        if only is not None and f not in only:
+            continue
+        if target is None:
+            os.mkdir(os.path.join(d, f))
+        else:
+            os.symlink(os.path.join(pool, target), os.path.join(d, f))
     return d
 
 
@@ -315,16 +430,20 @@ class Runner:
         self.chk, self.T, self.wd, self.pool, self.drv = chk, T, wd, pool, drv
         self.n = 0
 
-    def prepare(self, job, tag, argv_order=None, mix_cut=None, style=0, json_job=None, argv_override=None):
-        """-> list of (rendering name, kind, dir, payload)"""
+    def prepare(self, job, tag, argv_order=None, mix_cut=None, style=0, json_job=None, argv_override=None, flavour="plain"):
+        """-> list of (rendering name, kind, dir, payload). flavour: what else lies in the working directories (FLAVOURS)"""
         T = self.T
         self.n += 1
         base = "%s%05d" % (tag, self.n)
         rs = []
-        argv = argv_override if argv_override is not None else render_argv(T, job, argv_order, style)
-        d = new_rundir(self.wd, self.pool, base + "/cli-argv")
-        rs.append(("cli-argv", "cli", d, argv))
-        d = new_rundir(self.wd, self.pool, base + "/cli-json")
+        files = flavour_files(flavour)
+        only = job_words(job) | job_words(json_job) if flavour != "plain" else None
+
+        def rundir(name):
+            return new_rundir(self.wd, self.pool, base + "/" + name, flavour, only)
+        argv = argv_override if argv_override is not None else render_argv(T, job, argv_order, style, files)
+        rs.append(("cli-argv", "cli", rundir("cli-argv"), argv))
+        d = rundir("cli-json")
         jj = json_job if json_job is not None else job
         open(os.path.join(d, "job.json"), "w").write(json.dumps(jj))
         rs.append(("cli-json", "cli", d, ["--job-json-file=job.json"]))
@@ -334,21 +453,19 @@ class Runner:
         okeys = [k for k in keys if k not in pos]
         cut = mix_cut if mix_cut is not None else (len(okeys) // 2)
         first, second = okeys[:cut], okeys[cut:]
-        d = new_rundir(self.wd, self.pool, base + "/cli-mix")
+        d = rundir("cli-mix")
         if self.n % 2 == 0:
             part = {k: jj[k] for k in first}
             rest = {k: job[k] for k in second + pos}
-            margv = ["--job-json-file=part.json"] + render_argv(T, rest, [k for k in keys if k in rest], style)
+            margv = ["--job-json-file=part.json"] + render_argv(T, rest, [k for k in keys if k in rest], style, files)
         else:
             part = {k: jj[k] for k in second}
             rest = {k: job[k] for k in first + pos}
-            margv = render_argv(T, rest, [k for k in keys if k in rest], style) + ["--job-json-file=part.json"]
+            margv = render_argv(T, rest, [k for k in keys if k in rest], style, files) + ["--job-json-file=part.json"]
         open(os.path.join(d, "part.json"), "w").write(json.dumps(part))
         rs.append(("cli-mix", "cli", d, margv))
-        d = new_rundir(self.wd, self.pool, base + "/capi-argv")
-        rs.append(("capi-argv", "capi-argv", d, argv))
-        d = new_rundir(self.wd, self.pool, base + "/capi-json")
-        rs.append(("capi-json", "capi-json", d, json.dumps(jj)))
+        rs.append(("capi-argv", "capi-argv", rundir("capi-argv"), argv))
+        rs.append(("capi-json", "capi-json", rundir("capi-json"), json.dumps(jj)))
         return rs
 
     def run_all(self, prepared):
@@ -639,10 +756,11 @@ def random_job(T, rng):
 
 # ------------------------------------------------------------------------------------------------ parts
 
-def report(chk, part, job, res, why, signature=""):
+def report(chk, part, job, res, why, signature="", extra=None):
     rep = {"kind": "property-fails-on-implementation", "part": part, "why": why, "job_json": job, "job_json_as_given": res["capi-json"]["payload"],
            "renderings": {n: {"payload": r["payload"], "rc": r["rc"], "stderr": r["stderr"][-600:], "stdout": r["stdout"], "files": r["files"]}
                           for n, r in res.items()}}
+    rep.update(extra or {})
     chk.violation(rep, signature=signature)
 
 
@@ -1094,6 +1212,58 @@ def mutate_json(rng, T, job):
     return j
 
 
+def short_out(o):
+    if o.startswith(("usage ", "error ")) and len(o) > 6:
+        try:
+            return o[:6] + bytes.fromhex(o[6:]).decode("latin-1")
+        except ValueError:
+            return o[:300]
+    return o[:300]
+
+
+def front_verdict(form, mo, ro, po):
+    """mo: the model's answer; ro: what the real front end built; po: the model's calls replayed through the real Config API.
+    -> (agree, why not, class)"""
+    real = parse_dump(ro)
+    ok = False
+    why = ""
+    if po.startswith("ok "):
+        rep = parse_dump(po)
+        ok = real[0] == "ok" and not dump_diff(real, rep)
+        why = "configuration differs in %s" % (dump_diff(real, rep)[:8] if real[0] == "ok" else real[0])
+        cls = "ok"
+    elif po.startswith("usage "):
+        rep = parse_dump(po)
+        ok = real[0] == "usage" and real[1] == rep[1]
+        why = "usage error differs"
+        cls = "config-usage"
+    elif po.startswith("end front:"):
+        k = int(po[10:])
+        ok = real[0] == "usage" and front_kind(real[1]) == k
+        why = "model predicts front-end usage error kind %d" % k
+        cls = "front-usage-%d" % k
+    elif po == "end schema":
+        ok = real[0] == "error" and "job json has errors" in bytes.fromhex(ro[6:]).decode("latin-1")
+        why = "model predicts a schema error"
+        cls = "schema"
+    elif po == "end crash":
+        ok = ro.startswith("?child-died")
+        why = "model predicts a null-pointer crash"
+        cls = "crash"
+    elif po == "end help":
+        ok = True   # help options print and exit(0) inside the library
+        cls = "help"
+    elif po.startswith("error "):
+        # ArgParser::parseOptions turns any std::runtime_error raised under parseArgs into a usage error with the same text
+        ok = real[0] == ("usage" if form == "argv" else "error") and bytes.fromhex(po[6:]) in bytes.fromhex(ro[6:])
+        why = "runtime error differs"
+        cls = "error"
+    else:
+        why = "replay failed: " + po[:200]
+        cls = "?"
+    return ok, why, cls
+
+
 def part_front(chk, T, runner, jobs):
     """model (extracted Sys/JobFront.v) vs implementation: the calls the model says a front end makes, applied through the real
     Config API, must build the configuration (or raise the usage error) that the real front end builds for the same input"""
@@ -1147,43 +1317,7 @@ def part_front(chk, T, runner, jobs):
     pout = common.run_lines(exe, plines, shards=4)
     bad, dist, nontriv = [], {}, set()
     for c, mo, ro, po in zip(cases, mout, rout, pout):
-        real = parse_dump(ro)
-        ok = False
-        why = ""
-        if po.startswith("ok "):
-            rep = parse_dump(po)
-            ok = real[0] == "ok" and not dump_diff(real, rep)
-            why = "configuration differs in %s" % (dump_diff(real, rep)[:8] if real[0] == "ok" else real[0])
-            cls = "ok"
-        elif po.startswith("usage "):
-            rep = parse_dump(po)
-            ok = real[0] == "usage" and real[1] == rep[1]
-            why = "usage error differs"
-            cls = "config-usage"
-        elif po.startswith("end front:"):
-            k = int(po[10:])
-            ok = real[0] == "usage" and front_kind(real[1]) == k
-            why = "model predicts front-end usage error kind %d" % k
-            cls = "front-usage-%d" % k
-        elif po == "end schema":
-            ok = real[0] == "error" and "job json has errors" in bytes.fromhex(ro[6:]).decode("latin-1")
-            why = "model predicts a schema error"
-            cls = "schema"
-        elif po == "end crash":
-            ok = ro.startswith("?child-died")
-            why = "model predicts a null-pointer crash"
-            cls = "crash"
-        elif po == "end help":
-            ok = ro.startswith("?child-died") or real[0] == "ok" or True   # help options print and exit(0) inside the library
-            cls = "help"
-        elif po.startswith("error "):
-            # ArgParser::parseOptions turns any std::runtime_error raised under parseArgs into a usage error with the same text
-            ok = real[0] == ("usage" if c[0] == "argv" else "error") and bytes.fromhex(po[6:]) in bytes.fromhex(ro[6:])
-            why = "runtime error differs"
-            cls = "error"
-        else:
-            why = "replay failed: " + po[:200]
-            cls = "?"
+        ok, why, cls = front_verdict(c[0], mo, ro, po)
         dist[cls] = dist.get(cls, 0) + 1
         if ok and cls in ("ok", "config-usage") and len(mo) > 80:
             nontriv.add(mo)
@@ -1191,13 +1325,7 @@ def part_front(chk, T, runner, jobs):
             bad.append((c, mo, ro, po, why))
     if bad:
         c, mo, ro, po, why = bad[0]
-        def short(o):
-            if o.startswith(("usage ", "error ")) and len(o) > 6:
-                try:
-                    return o[:6] + bytes.fromhex(o[6:]).decode("latin-1")
-                except ValueError:
-                    return o[:300]
-            return o[:300]
+        short = short_out
         chk.violation({"kind": "correspondence-broken", "correspondence": "corr:C19:front", "differing_cases": len(bad),
                        "first_case": {"form": c[0], "input": c[1], "partial": c[2] if c[0] == "json" else None},
                        "why": why, "model": mo[:1500], "implementation": short(ro), "model_calls_replayed_through_real_Config": short(po),
@@ -1206,6 +1334,326 @@ def part_front(chk, T, runner, jobs):
                                "argv and job JSON still agree"}, no_input=True)
     chk.count("front", len(cases), nontriv, samples=[{"form": cases[i][0], "input": cases[i][1], "model": mout[i][:200]} for i in (0, 1, len(cases) - 9)])
     chk.cov["parts"]["front"]["distribution"] = dist
+
+
+# ---- the hand-written positional / nested handlers in working directories that contain look-alike entries (parts cwd-*)
+
+PAGE_FILES = [".", "A.pdf", "B.pdf", "2", "1-3", "z", "r1", "nofile.pdf"]
+PAGE_RANGES = [None, "1", "2", "1-3", "z", "r1", "3,1", "1-2:even", "", "x", "9", "."]
+HW_PASSWORDS = ["pw", "", "2", "1-3", "256", "A.pdf", ".", "--", "-x", "--password=pw", "z"]
+HW_OUT = ["out.pdf", "7", "5-6", "zz"]            # range-like names that exist in no flavour (an output must not follow a pool symlink)
+
+
+def pspec(f, r=None, pw=None):
+    it = {"file": f}
+    if r is not None:
+        it["range"] = r
+    if pw is not None:
+        it["password"] = pw
+    return it
+
+
+def hw_systematic(T):
+    """jobs around each hand-written handler of QPDFJob_argv.cc, the words that may follow being drawn from every kind of word the
+    handler may expect next"""
+    jobs = []
+
+    def add(fam, **kw):
+        j = base_job()
+        for k, v in kw.items():
+            if v is None:
+                j.pop(k, None)
+            else:
+                j[k] = v
+        jobs.append((fam, j))
+    # --pages file [--password=] [range] ...: one specification, every file kind x every range kind
+    for f in PAGE_FILES:
+        for r in PAGE_RANGES:
+            add("pages1", pages=[pspec(f, r)])
+    # two specifications: the second word after a file name is a range, or the next file (first range omitted)
+    for f1 in ("A.pdf", "2"):
+        for r1 in (None, "2", "1-3", "x"):
+            for f2 in ("B.pdf", "2", "1-3", "z", ".", "nofile.pdf"):
+                for r2 in (None, "1", "z"):
+                    add("pages2", pages=[pspec(f1, r1), pspec(f2, r2)])
+    # a password between the file name and the range; three specifications; --empty; an input named like a range
+    for pw in HW_PASSWORDS:
+        for r in (None, "1", "2"):
+            add("pages-pw", pages=[pspec("E.pdf", r, pw), pspec("r1", "1", "pw")])
+    for f in ("2", "1-3", "z"):
+        add("pages-in", inputFile=f, pages=[pspec("."), pspec(f, "1")])
+        add("pages-in", inputFile=f, pages=[pspec(".", "1"), pspec("A.pdf", "2")])
+        add("pages-in", empty="", inputFile=None, pages=[pspec(f), pspec("A.pdf", "2"), pspec("2")])
+        add("pages-in", empty="", inputFile=None, pages=[pspec("A.pdf"), pspec(f), pspec("B.pdf", "1")])
+    for c in ("", "2", "1,2"):
+        add("pages-collate", collate=c, pages=[pspec("A.pdf", "1-3"), pspec("2")])
+        add("pages-collate", collate=c, pages=[pspec("A.pdf", "2"), pspec("B.pdf", "1-3")])
+    # --encrypt user owner bits (positional) / --user-password= --owner-password= --bits= (named)
+    for i, u in enumerate(HW_PASSWORDS):
+        for o in (HW_PASSWORDS[(i + 3) % len(HW_PASSWORDS)], "o"):
+            bits = ("128bit", "40bit", "256bit")[i % 3]
+            e = {"userPassword": u, "ownerPassword": o, bits: {}}
+            add("encrypt", encrypt=e, allowWeakCrypto="" if bits != "256bit" else None)
+    # --overlay / --underlay file [--to= --from= --repeat= --password=]
+    for i, f in enumerate(("O.pdf", "2", "1-3", "--to=1", "--", "r1", "nofile.pdf", "x")):
+        for to in (None, "1", "1-z", "x", ""):
+            it = {"file": f}
+            if to is not None:
+                it["to"] = to
+            if f == "r1":
+                it["password"] = "pw"
+            if i % 2:
+                it["from"] = "1"
+            add("uo", **{("overlay", "underlay")[(i + len(to or "")) % 2]: [it]})
+    add("uo", overlay=[{"file": "2", "to": "1"}, {"file": "O.pdf", "to": "2", "repeat": "1"}], underlay=[{"file": "1-3", "from": "z"}])
+    # --add-attachment file [--key= ...] ; --copy-attachments-from file [--prefix= --password=]
+    for f in ("att.txt", "2", "pw", "k1", "nofile.txt", "."):
+        for key in (None, "k1", "2", "--", "-x", "--replace"):
+            it = {"file": f, "creationdate": STAMP, "moddate": STAMP}
+            if key is not None:
+                it["key"] = key
+                it["filename"] = key
+            add("att", addAttachment=[it])
+    add("att", addAttachment=[{"file": "2", "creationdate": STAMP, "moddate": STAMP}, {"file": "1-3", "key": "z", "replace": "", "creationdate": STAMP, "moddate": STAMP}])
+    for f in ("F.pdf", "z", "2", "nofile.pdf", "p-"):
+        for pre in (None, "p-", "2", "--", "-x", ""):
+            it = {"file": f}
+            if pre is not None:
+                it["prefix"] = pre
+            add("copyatt", copyAttachmentsFrom=[it])
+    add("copyatt", copyAttachmentsFrom=[{"file": "r1", "password": "pw", "prefix": "e-"}, {"file": "z", "prefix": "2"}])
+    # options with an optional or range-bearing parameter next to positional words named like the parameter
+    for rot in (["+90"], ["+90:2"], ["90:1-3", "-90:z"], ["180:r1"], ["+90:x"], ["2"], ["+90:2", "+90:2"]):
+        add("rotate", rotate=rot)
+        add("rotate", rotate=rot, inputFile="2", outputFile="7")
+    for sp in ("", "2"):
+        for out in ("split-%d.pdf", "7", "5-6"):
+            add("split", splitPages=sp, outputFile=out)
+            add("split", splitPages=sp, outputFile=out, inputFile="2", pages=[pspec(".", "1-2"), pspec("1-3", "2")])
+    # an option whose parameter is optional, omitted, directly followed (alt_order) by an input / output named like the parameter
+    for inp in ("2", "1-3", "A.pdf"):
+        add("optional", collate="", inputFile=inp, pages=[pspec(".", "1"), pspec("B.pdf", "2")])
+        add("optional", splitPages="", inputFile=inp, outputFile="7")
+        add("optional", json="", inputFile=inp, outputFile=None)
+        add("optional", jsonOutput="", inputFile=inp, outputFile="7")
+    for out in HW_OUT:
+        add("positional", outputFile=out, inputFile="1-3")
+        add("positional", outputFile=out, inputFile="z", collate="", pages=[pspec("."), pspec("2", "1")])
+    return jobs
+
+
+def hw_random(T, rng):
+    """a random combination of the nested structures, words drawn from the same pools"""
+    j = base_job(rng.choice(["A.pdf", "B.pdf", "2", "1-3", "z"]), rng.choice(HW_OUT))
+    r = rng.random()
+    if r < 0.7:
+        specs = []
+        for _ in range(rng.randint(1, 4)):
+            f = rng.choice(PAGE_FILES + ["E.pdf", "r1"])
+            pw = rng.choice([None, None, "pw"] + HW_PASSWORDS[:3]) if f not in ("E.pdf", "r1") else rng.choice(["pw", "pw", "2"])
+            specs.append(pspec(f, rng.choice(PAGE_RANGES + ["1", "2", "z"]), pw))
+        j["pages"] = specs
+        if rng.random() < 0.2:
+            j["collate"] = rng.choice(["", "2"])
+        if rng.random() < 0.15:
+            j.pop("inputFile")
+            j["empty"] = ""
+    if rng.random() < 0.3:
+        k = rng.choice(["overlay", "underlay"])
+        j[k] = [{"file": rng.choice(["O.pdf", "2", "1-3", "--to=1", "--"]), "to": rng.choice(["1", "1-z", "2"])} for _ in range(rng.randint(1, 2))]
+    if rng.random() < 0.2:
+        j["addAttachment"] = [{"file": rng.choice(["att.txt", "2", "pw", "k1"]), "key": rng.choice(["k1", "2", "--", "-x"]), "creationdate": STAMP, "moddate": STAMP}]
+    if rng.random() < 0.15:
+        j["copyAttachmentsFrom"] = [{"file": rng.choice(["F.pdf", "z"]), "prefix": rng.choice(["p-", "2", "--"])}]
+    if rng.random() < 0.2:
+        j["rotate"] = [rng.choice(["+90", "+90:2", "90:1-3", "180:r1", "2"])]
+    if rng.random() < 0.15:
+        j["encrypt"] = {"userPassword": rng.choice(HW_PASSWORDS), "ownerPassword": rng.choice(HW_PASSWORDS), "128bit": {}}
+        j["allowWeakCrypto"] = ""
+    return j
+
+
+PAGES_WORDS = [".", "A.pdf", "B.pdf", "E.pdf", "2", "1-3", "z", "r1", "1", "3,1", "1-2:even", "", "x", "9", "nofile.pdf", "--password=pw", "--password=2", "--range=1",
+               "--range=", "--range=x", "--file=2", "--file=A.pdf", "--file=.", "--file=x", "-", "@nofile", "--", "pw", ":odd", "1-z", "--file", "--range"]
+
+
+def pages_word_soup(rng):
+    """any sequence of words inside --pages ... -- (the handler keeps two flags across words; every state x every kind of word)"""
+    n = rng.randint(1, 7)
+    ws = [rng.choice(PAGES_WORDS) for _ in range(n)]
+    tail = rng.choice([["--"], ["--"], ["--"], [], ["--", "--pages", rng.choice(PAGES_WORDS), "--"]])
+    return [rng.choice(["A.pdf", "2"]), "out.pdf", "--pages"] + ws + tail
+
+
+def alt_order(T, j):
+    """a second command-line order: the options whose optional parameter is omitted come first and the positional words directly
+    after them, so that a word which looks like the parameter (an input named 2 after --collate, an output named 7 after
+    --split-pages) follows the flag"""
+    opt = [k for k in sorted(j) if k in T.main and T.main[k]["kind"] in ("optparam", "optchoices") and j[k] == ""]
+    if not opt:
+        return None
+    pos = [k for k in ("inputFile", "empty", "outputFile", "replaceInput") if k in j]   # the input (or its substitute) before the output
+    return opt + pos + [k for k in sorted(j) if k not in opt and k not in pos]
+
+
+def cwd_variants(T, j):
+    """(style, order) of the command-line renderings of a job: positional and named spelling in key order, and alt_order"""
+    o = alt_order(T, j)
+    return [(0, None), (1, None)] + ([(0, o)] if o else [])
+
+
+def cwd_signature(job):
+    return enc40_signature(job, None)
+
+
+def part_cwd(chk, T, runner):
+    """The reading of a command-line word must not depend on what else lies in the working directory, except where the manual says so
+    (a word after a --pages file name that is not a page range is the next file name). Every job is rendered from the same JSON-shaped
+    description; cwd-cfg compares the configurations the two real front ends build, cwd-front the front-end model (whose argv part
+    takes the set of openable names) with the real front ends, cwd-e2e the five renderings end to end."""
+    rng = chk.rng
+    quick = chk.tier == "quick"
+    sysjobs = hw_systematic(T)
+    jobs = [j for _, j in sysjobs] + [hw_random(T, rng) for _ in range(300 if quick else 20000)]
+    fam = [f for f, _ in sysjobs] + ["random"] * (len(jobs) - len(sysjobs))
+    variants = [cwd_variants(T, j) for j in jobs]
+    mrunner = os.path.join(common.EXTRACT, "model_runner")
+    # ---- cwd-cfg / cwd-front, one driver directory per flavour
+    nviol = {"cwd-cfg": 0, "cwd-e2e": 0}
+    n_cfg, n_front, nontriv_cfg, nontriv_front = 0, 0, set(), set()
+    dist_cfg, dist_front, pending, front_bad = {}, {}, [], []
+    import time
+    tw = {"cfg": 0.0, "model": 0.0, "real": 0.0, "e2e-prepare": 0.0, "e2e-run": 0.0}
+    for fl in FLAVOUR_ORDER:
+        files = flavour_files(fl)
+        d = new_rundir(runner.wd, runner.pool, "cwd-" + fl, fl)
+        exe = "env --chdir=%s %s" % (d, runner.drv)
+        lines, idx = [], []
+        for i, j in enumerate(jobs):
+            for vi, (style, order) in enumerate(variants[i]):
+                argv = render_argv(T, j, order, style, files)
+                lines.append("cfg_argv " + " ".join(hexs(a) for a in argv))
+                idx.append((i, vi, argv))
+            lines.append("cfg_json " + hexs(json.dumps(j)))
+        t0 = time.time()
+        outs = common.run_lines(exe, lines, shards=4)
+        tw["cfg"] += time.time() - t0
+        k, ai = 0, 0
+        for i, j in enumerate(jobs):
+            nv = len(variants[i])
+            b = parse_dump(outs[k + nv])
+            n_cfg += 1
+            for vi in range(nv):
+                a = parse_dump(outs[k + vi])
+                argv = idx[ai][2]
+                ai += 1
+                n_cfg += 1
+                dist_cfg[a[0]] = dist_cfg.get(a[0], 0) + 1
+                if a[0] == "ok" and b[0] == "ok":
+                    df = dump_diff(a, b)
+                    if df:
+                        nviol["cwd-cfg"] += 1
+                        chk.violation({"kind": "property-fails-on-implementation", "part": "cwd-cfg", "why": "configuration differs in %s" % df[:10],
+                                       "job_json": j, "argv": argv, "style": variants[i][vi][0], "argv_order": variants[i][vi][1], "cwd_flavour": fl,
+                                       "cwd_entries": sorted(FLAVOURS[fl]),
+                                       "differing_fields": {f: {"argv": a[1].get(f), "json": b[1].get(f)} for f in df[:10]}},
+                                      signature=cwd_signature(j))
+                    else:
+                        nontriv_cfg.add(json.dumps([j, vi], sort_keys=True))
+                elif a[0] != b[0] and not (a[0] in ("usage", "error") and b[0] in ("usage", "error")):
+                    pending.append((i, vi, fl))
+            k += nv + 1
+        # the model on the same words, on mutations of them, and on word sequences inside --pages
+        cases = [argv for (_, _, argv) in idx]
+        for _ in range(len(jobs) // 2 if quick else len(jobs)):
+            j = rng.choice(jobs)
+            cases.append(mutate_argv(rng, T, render_argv(T, j, None, rng.randrange(2), files)))
+        for _ in range(400 if quick else 8000):
+            cases.append(pages_word_soup(rng))
+        mfiles = ",".join(hexs(f) for f in sorted(files))
+        t0 = time.time()
+        mout = common.run_lines(mrunner, ["front_argv %s %s" % (mfiles, " ".join(hexs(a) for a in c)) for c in cases], shards=4)
+        tw["model"] += time.time() - t0
+        rlines, plines = [], []
+        for c, mo in zip(cases, mout):
+            parts = mo.split(" ", 1)
+            end, calls = parts[0], (parts[1] if len(parts) > 1 else "-")
+            forked = end in ("crash", "help") or mo.startswith("?") or any(a.startswith(("--job-json-file", "-job-json-file", "--global", "-global")) for a in c)
+            rlines.append(("cfgf_argv " if forked else "cfg_argv ") + " ".join(hexs(a) for a in c))
+            plines.append(("cfgf_replay " if "c_global." in calls or "jobJsonFile" in calls else "cfg_replay ") + end + " " + calls)
+        t0 = time.time()
+        rout = common.run_lines(exe, rlines, shards=4)
+        pout = common.run_lines(exe, plines, shards=4)
+        tw["real"] += time.time() - t0
+        for c, mo, ro, po in zip(cases, mout, rout, pout):
+            n_front += 1
+            ok, why, cls = front_verdict("argv", mo, ro, po)
+            dist_front[cls] = dist_front.get(cls, 0) + 1
+            if ok and cls in ("ok", "config-usage") and len(mo) > 80:
+                nontriv_front.add(mo)
+            if not ok:
+                front_bad.append((c, fl, mo, ro, po, why))
+    chk.count("cwd-cfg", n_cfg, nontriv_cfg, samples=[{"job": jobs[i], "argv": render_argv(T, jobs[i], None, 0, flavour_files("all"))} for i in (1, len(sysjobs) - 1, len(jobs) - 1)])
+    chk.cov["parts"]["cwd-cfg"]["distribution"] = dist_cfg
+    chk.cov["parts"]["cwd-cfg"]["flavours"] = {fl: len(FLAVOURS[fl]) for fl in FLAVOUR_ORDER}
+    chk.cov["parts"]["cwd-cfg"]["families"] = {f: fam.count(f) for f in sorted(set(fam))}
+    chk.cov["parts"]["cwd-cfg"]["decided_end_to_end"] = len(pending)
+    if front_bad:
+        c, fl, mo, ro, po, why = front_bad[0]
+        chk.violation({"kind": "correspondence-broken", "correspondence": "corr:C19:front", "differing_cases": len(front_bad),
+                       "first_case": {"form": "argv", "input": c, "partial": None, "cwd_flavour": fl}, "cwd_entries": sorted(FLAVOURS[fl]),
+                       "why": why, "model": mo[:1500], "implementation": short_out(ro), "model_calls_replayed_through_real_Config": short_out(po),
+                       "more": [{"input": b[0], "cwd_flavour": b[1], "why": b[5], "implementation": short_out(b[3]), "model": b[2][:300]} for b in front_bad[1:6]],
+                       "note": "the front-end model (which is given the set of names that can be opened in the working directory) no longer predicts "
+                               "what the real command-line front end does in that directory; cwd-cfg / cwd-e2e decide whether argv and job JSON still agree"},
+                      no_input=True)
+    chk.count("cwd-front", n_front, nontriv_front, samples=[{"input": pages_word_soup(rng)}])
+    chk.cov["parts"]["cwd-front"]["distribution"] = dist_front
+    # ---- cwd-e2e: the five renderings; every systematic job in the directory that has everything, the rest over the other flavours
+    sel = []      # (job index, variant index, flavour)
+    for i in range(len(sysjobs)):
+        # quick tier: every second one-specification --pages job, every third job of the other families (all of them at the configuration
+        # level above; which ones depends on the seed)
+        if not quick or (fam[i] == "pages1" and (i // 2) % 2 == chk.seed % 2) or (fam[i] != "pages1" and i % 3 == chk.seed % 3):
+            sel.append((i, i % 2, "all" if i % 4 else "ranges-dir"))
+        if len(variants[i]) > 2:
+            sel.append((i, 2, "all"))
+    for n, i in enumerate(range(len(sysjobs), len(jobs))):
+        if n >= (30 if quick else 4000):
+            break
+        sel.append((i, n % len(variants[i]), FLAVOUR_ORDER[n % len(FLAVOUR_ORDER)]))
+    seen = set(sel)
+    for x in pending[:40 if quick else 2000]:
+        if x not in seen:
+            seen.add(x)
+            sel.append(x)
+    t0 = time.time()
+    prepared = [(jobs[i], runner.prepare(jobs[i], "w", style=variants[i][vi][0], argv_order=variants[i][vi][1], flavour=fl)) for i, vi, fl in sel]
+    tw["e2e-prepare"] = time.time() - t0
+    t0 = time.time()
+    results = runner.run_all(prepared)
+    tw["e2e-run"] = time.time() - t0
+    chk.cov["cwd_wall_s"] = {k: round(v, 1) for k, v in tw.items()}
+    nontriv, dist = set(), {"ok": 0, "warn": 0, "usage": 0, "error": 0}
+    for (i, vi, fl), res in zip(sel, results):
+        j = jobs[i]
+        st, order = variants[i][vi]
+        why = compare(res)
+        ref = res["cli-argv"]
+        cls = "usage" if ref["usage"] else {0: "ok", 3: "warn"}.get(ref["rc"], "error")
+        dist[cls] = dist.get(cls, 0) + 1
+        if ref["rc"] in (0, 3) and (ref["files"] or ref["stdout"][-2:] != ":0"):
+            nontriv.add(json.dumps([j, fl], sort_keys=True))
+        if why:
+            nviol["cwd-e2e"] += 1
+            report(chk, "cwd-e2e", j, res, why, signature=cwd_signature(j), extra={"style": st, "argv_order": order, "cwd_flavour": fl, "cwd_entries": sorted(FLAVOURS[fl])})
+    chk.count("cwd-e2e", 5 * len(sel), nontriv, samples=[{"job": jobs[sel[i][0]], "cwd_flavour": sel[i][2], "argv": results[i]["cli-argv"]["payload"],
+                                                          "rc": results[i]["cli-argv"]["rc"]} for i in (2, len(sel) // 2, len(sel) - 1)])
+    chk.cov["parts"]["cwd-e2e"]["distribution"] = dist
+    chk.cov["parts"]["cwd-e2e"]["option_sets"] = len(sel)
+    chk.cov["parts"]["cwd-cfg"]["differences_found"] = nviol["cwd-cfg"]
+    chk.cov["parts"]["cwd-e2e"]["differences_found"] = nviol["cwd-e2e"]
+    chk.cov["parts"]["cwd-front"]["model_differences_found"] = len(front_bad)
 
 
 def run(chk):
@@ -1224,11 +1672,26 @@ def run(chk):
                        "non-trivial = accepted set producing an output file or standard output, distinct by job. "
                        "pairs: every unordered pair of main-option instances (and of options inside each encryption table) in both command-line orders, "
                        "compared at the configuration dump, differing pairs confirmed end to end; non-trivial = distinct non-commuting pair. "
-                       "cfg: the option sets of e2e plus a larger random stream, argv against job JSON at the configuration dump of the real front ends")
+                       "cfg: the option sets of e2e plus a larger random stream, argv against job JSON at the configuration dump of the real front ends. "
+                       "cwd-*: jobs around every hand-written positional / nested handler of QPDFJob_argv.cc (--pages file [--password=] [range], --encrypt "
+                       "positional and named, --overlay/--underlay, --add-attachment, --copy-attachments-from, --rotate, --split-pages, --collate, positional "
+                       "input/output) whose words are drawn from every kind of word the handler may expect next (page ranges of each form, '.', '--', option "
+                       "words, passwords, key lengths; inputs named like ranges), in both command-line spellings, each in five kinds of working directory "
+                       "(plain; files / directories named like page ranges; files named like the other words; all of them): cwd-cfg = argv against job JSON "
+                       "at the configuration dump, cwd-front = the front-end model given the directory's names against the real front end (also on "
+                       "mutations and on random word sequences inside --pages), cwd-e2e = five renderings end to end; non-trivial = distinct accepted job")
+    import time
+    t0 = time.time()
     pending, jobs = part_cfg(chk, T, runner)
+    t1 = time.time()
+    part_cwd(chk, T, runner)
+    t2 = time.time()
     part_front(chk, T, runner, jobs)
+    t3 = time.time()
     part_pairs(chk, T, runner)
+    t4 = time.time()
     part_e2e(chk, T, runner, pending)
+    chk.cov["part_wall_s"] = {"cfg": round(t1 - t0, 1), "cwd": round(t2 - t1, 1), "front": round(t3 - t2, 1), "pairs": round(t4 - t3, 1), "e2e": round(time.time() - t4, 1)}
     shutil.rmtree(os.path.join(wd, "r"), ignore_errors=True)
 
 
@@ -1247,11 +1710,12 @@ def replay(chk, rep):
         chk.rng.seed(0)
         cases = [("argv", c["input"])] if c["form"] == "argv" else [("json", c["input"], bool(c.get("partial")))]
         mrunner = os.path.join(common.EXTRACT, "model_runner")
-        files = ",".join(hexs(f) for f in POOL)
+        files = ",".join(hexs(f) for f in sorted(flavour_files(c.get("cwd_flavour", "plain"))))
         ml = ["front_argv %s %s" % (files, " ".join(hexs(a) for a in cases[0][1]))] if c["form"] == "argv" else \
              ["front_json %d %s" % (1 if cases[0][2] else 0, " ".join(jtokens(cases[0][1])))]
         mo = common.run_lines(mrunner, ml)[0]
-        d = new_rundir(wd, pool, "replay")
+        fl = c.get("cwd_flavour", "plain")
+        d = new_rundir(wd, pool, "replay", fl)
         exe = "env --chdir=%s %s" % (d, drv)
         rl = ["cfgf_argv " + " ".join(hexs(a) for a in cases[0][1])] if c["form"] == "argv" else \
              ["cfgf_json " + hexs(json.dumps(cases[0][1])) + (" partial" if cases[0][2] else "")]
@@ -1274,7 +1738,21 @@ def replay(chk, rep):
             jj = json.loads(rep["job_json_as_given"])
         except ValueError:
             jj = None
-    rs = runner.prepare(job, "x", json_job=jj, argv_override=rep.get("argv_reversed_order"))
+    fl = rep.get("cwd_flavour", "plain")
+    if rep.get("part") == "cwd-cfg":
+        d = new_rundir(wd, pool, "replay", fl)
+        outs = common.run_lines("env --chdir=%s %s" % (d, drv), ["cfg_argv " + " ".join(hexs(a) for a in rep["argv"]), "cfg_json " + hexs(json.dumps(job))])
+        a, b = parse_dump(outs[0]), parse_dump(outs[1])
+        df = dump_diff(a, b) if a[0] == b[0] == "ok" else (["outcome: %s / %s" % (a[0], b[0])] if a[0] != b[0] else [])
+        print("working directory: pool files + %s" % sorted(FLAVOURS[fl]))
+        print("argv: %s" % rep["argv"])
+        print("json: %s" % json.dumps(job))
+        for f in df[:10]:
+            print("  %s: argv=%s json=%s" % (f, a[1].get(f) if a[0] == "ok" else a, b[1].get(f) if b[0] == "ok" else b))
+        print("REPLAY: %s" % (("still fails: configuration differs in %s" % df[:10]) if df else "the two front ends build the same configuration now"))
+        return 1 if df else 0
+    rs = runner.prepare(job, "x", json_job=jj, argv_override=rep.get("argv_reversed_order"), style=rep.get("style", 0), argv_order=rep.get("argv_order"),
+                        flavour=fl)
     res = runner.run_all([(job, rs)])[0]
     for n, r in res.items():
         print("%-10s rc=%s usage=%s stdout=%s files=%s payload=%s" % (n, r["rc"], r["usage"], r["stdout"], r["files"], r["payload"]))
